@@ -625,12 +625,12 @@ class ViewGradOracle(Observer):
                 if w.violation("C06", "C06.view_grad_missing", f"step {w.nstep}: view handle {h}: base.grad is available but view.grad is None", tag="C06.view_grad/missing"):
                     return
                 continue
-            if g1 is not g2 and not (np.array_equal(g1, g2) and np.shares_memory(g1, g2)):
+            if g1 is not g2 and not (np.array_equal(g1, g2, equal_nan=True) and np.shares_memory(g1, g2)):
                 if w.violation("C06", "C06.view_grad_unstable", f"step {w.nstep}: view handle {h}: two reads of .grad disagree", tag="C06.view_grad/unstable"):
                     return
             ids = mem[h]
             expect = np.asarray(bg).reshape(-1)[ids] if ids.size else np.zeros(ids.shape)
-            if g1.shape != expect.shape or not np.array_equal(g1, expect):
+            if g1.shape != expect.shape or not np.array_equal(g1, expect, equal_nan=True):
                 if w.violation(
                     "C06",
                     "C06.view_grad_value",
